@@ -556,6 +556,17 @@ func runC19(c *fw.Ctx) {
 				}
 			})
 		})
+		step("Clear.Add", func() at.List { return l.Clear().Add(1) })
+		step("Clear.Add(several)", func() at.List { return l.Clear().Add(1, "two", nil) })
+		step("Clear.Insert(0)", func() at.List { return l.Clear().Insert(0, 1) })
+		step("Clear.SetTF(#0)", func() at.List { return l.Clear().SetTF("#0", 1) })
+		step("Clear.SetTF(#2)", func() at.List { return l.Clear().SetTF("#2", 1) })
+		step("emptied by Pop, Add", func() at.List {
+			for l.Count() > 0 {
+				l.Pop()
+			}
+			return l.Add(1)
+		})
 		step("Delete(an index twice)", func() at.List { return l.Add(1, 2, 3).Delete(1, 1) })
 		step("Delete(indexes in descending order, one twice)", func() at.List { return l.Add(1, 2, 3, 4).Delete(2, 0, 2) })
 		step("Delete(all indexes)", func() at.List {
